@@ -206,6 +206,7 @@ func TBE(reftree *tree.Tree, boottrees <-chan tree.Trees, cpu int,
 			}
 			if err = reftree.CompareTipIndexes(boot.Tree); err != nil {
 				io.LogError(err)
+				return
 			}
 			nbranchclose = 0
 			fmt.Fprintf(os.Stderr, "CPU : %02d - Bootstrap tree %d\r", cpu, boot.Id)
